@@ -55,12 +55,17 @@ def o_save_load(inp):
     allsig.sort(key=lambda x: x[0])
     meta = [from_real(m) for m in loaded[0].abs._messages]
     tm, _ = abs_timed(meta)
-    for ty, default, name in ((TIMESIG, (4, 4), "time"), (KEYSIG, None, "key")):
+    for ty, name in ((TIMESIG, "time"), (KEYSIG, "key")):
         ticks = [t for t, m in allsig if m[TY] == ty]
         if len(ticks) != len(set(ticks)):
             continue
-        if sig_in_force(allsig, ty, default) != sig_in_force(tm, ty, default):
-            fails.append((name + "-sig", f"saved timeline {sig_in_force(allsig, ty, default)}, loaded {sig_in_force(tm, ty, default)}"))
+        # what must be in force: the saved signatures, with 4/4 from tick 0 when nothing is saved there.
+        # The loaded meta sequence is read with *no* default: it has to say 4/4 itself.
+        implicit = [(0, pm(TIMESIG, 0, 0, num=4, den=4))] if ty == TIMESIG else []
+        expected = sig_in_force(implicit + allsig, ty, None)
+        got = sig_in_force(tm, ty, None)
+        if expected != got:
+            fails.append((name + "-sig", f"signature in force: expected {expected}, loaded {got}"))
     return fails
 
 
